@@ -73,11 +73,13 @@ pub struct Cap<'c, 'g> {
 	/// directly inside `Option<_>` over a union of several branches: there an enum hint means "the union as an enum" (the variant
 	/// identifier is the branch's type name), so an Avro enum branch is read by its symbol, not through a Rust enum
 	pub no_enum_hint: bool,
+	/// "alt2" targets: 0 = fresh node, 1 = already unwrapped from `Option<_>`, 2 = inside the enum named after the node's type
+	pub stage: u8,
 }
 
 impl<'c, 'g> Cap<'c, 'g> {
 	pub fn root(ctx: &'c Ctx<'g>) -> Self {
-		Cap { ctx, key: 0, path: vec![], shape: ctx.shape.as_ref(), no_enum_hint: false }
+		Cap { ctx, key: 0, path: vec![], shape: ctx.shape.as_ref(), no_enum_hint: false, stage: 0 }
 	}
 	fn child(&self, key: SchemaKey, step: usize) -> Cap<'c, 'g> {
 		self.child_shaped(key, step, None)
@@ -85,7 +87,7 @@ impl<'c, 'g> Cap<'c, 'g> {
 	fn child_shaped(&self, key: SchemaKey, step: usize, shape: Option<&'c J>) -> Cap<'c, 'g> {
 		let mut path = self.path.clone();
 		path.push(step);
-		Cap { ctx: self.ctx, key: key.idx(), path, shape, no_enum_hint: false }
+		Cap { ctx: self.ctx, key: key.idx(), path, shape, no_enum_hint: false, stage: 0 }
 	}
 	fn shape_elems(&self) -> Option<&'c Vec<J>> {
 		self.shape.and_then(|s| s.get("es")).and_then(|e| e.as_array())
@@ -113,6 +115,33 @@ impl<'de, 'c, 'g> DeserializeSeed<'de> for Cap<'c, 'g> {
 			return d.deserialize_any(AnyV { ctx: self.ctx });
 		}
 		let alt = hints == "alt";
+		if hints == "alt2" {
+			// a third family of typed targets, entry points the other two do not use:
+			//  Option<T> over a node that is not a union (Some(T); None for null);
+			//  a Rust enum whose variant is named after the node's type, over boolean / float / double / array / map / record / null;
+			//  String-like targets over bytes and fixed that hold valid UTF-8; a sequence target over duration; a tuple struct over arrays
+			let e = eff(node);
+			if self.stage == 0 && e != Eff::Union {
+				return d.deserialize_option(SomeWrapV { cap: &self });
+			}
+			if self.stage == 1 && matches!(e, Eff::Null | Eff::Boolean | Eff::Float | Eff::Double | Eff::Array | Eff::Map | Eff::Record) {
+				return d.deserialize_enum("E", &[], TypeNameEnumV { cap: &self });
+			}
+			let utf8 = || self.shape.and_then(|s| s.get("v")).and_then(|v| v.as_array())
+				.map(|a| std::str::from_utf8(&a.iter().map(|x| x.as_u64().unwrap_or(255) as u8).collect::<Vec<u8>>()).is_ok()).unwrap_or(false);
+			match e {
+				Eff::Bytes if utf8() => return d.deserialize_str(ScalarV { want: "bytes", cap: &self }),
+				Eff::Fixed if utf8() => return d.deserialize_string(ScalarV { want: "fix", cap: &self }),
+				Eff::Duration => return d.deserialize_seq(DurationV { cap: &self }),
+				Eff::Array => {
+					return match self.shape_elems() {
+						Some(es) => d.deserialize_tuple_struct("T", es.len(), ArrayV { cap: &self }),
+						None => d.deserialize_seq(ArrayV { cap: &self }),
+					}
+				}
+				_ => {}
+			}
+		}
 		match eff(node) {
 			Eff::Null => d.deserialize_unit(ScalarV { want: "unit", cap: &self }),
 			Eff::Boolean => d.deserialize_bool(ScalarV { want: "bool", cap: &self }),
@@ -190,6 +219,51 @@ impl<'c, 'g> Cap<'c, 'g> {
 		} else {
 			None
 		}
+	}
+}
+
+/// "alt2": `Option<T>` over a node that is not a union
+struct SomeWrapV<'a, 'c, 'g> {
+	cap: &'a Cap<'c, 'g>,
+}
+impl<'de, 'a, 'c, 'g> Visitor<'de> for SomeWrapV<'a, 'c, 'g> {
+	type Value = J;
+	fn expecting(&self, f: &mut fmt::Formatter) -> fmt::Result {
+		write!(f, "CAPTURE-MISMATCH: an option over a plain node")
+	}
+	fn visit_none<E: de::Error>(self) -> Result<J, E> {
+		match self.cap.node().map(eff) {
+			Ok(Eff::Null) => Ok(json!({"t": "null"})),
+			_ => Err(de_err("CAPTURE-MISMATCH: None for a node that is not null")),
+		}
+	}
+	fn visit_unit<E: de::Error>(self) -> Result<J, E> {
+		self.visit_none()
+	}
+	fn visit_some<D: Deserializer<'de>>(self, d: D) -> Result<J, D::Error> {
+		let inner = Cap { ctx: self.cap.ctx, key: self.cap.key, path: self.cap.path.clone(), shape: self.cap.shape, no_enum_hint: self.cap.no_enum_hint, stage: 1 };
+		inner.deserialize(d)
+	}
+}
+
+/// "alt2": a Rust enum with one newtype variant named after the node's type (`enum E { Double(f64) }` over "double")
+struct TypeNameEnumV<'a, 'c, 'g> {
+	cap: &'a Cap<'c, 'g>,
+}
+impl<'de, 'a, 'c, 'g> Visitor<'de> for TypeNameEnumV<'a, 'c, 'g> {
+	type Value = J;
+	fn expecting(&self, f: &mut fmt::Formatter) -> fmt::Result {
+		write!(f, "CAPTURE-MISMATCH: an enum named after the type")
+	}
+	fn visit_enum<A: EnumAccess<'de>>(self, a: A) -> Result<J, A::Error> {
+		let node = self.cap.node().map_err(de_err)?;
+		let (name, access): (String, A::Variant) = a.variant()?;
+		let want = branch_type_name(node);
+		if name != want {
+			return Err(de_err(format!("CAPTURE-MISMATCH: the variant is announced as {name:?}, the type's name is {want:?}")));
+		}
+		let inner = Cap { ctx: self.cap.ctx, key: self.cap.key, path: self.cap.path.clone(), shape: self.cap.shape, no_enum_hint: self.cap.no_enum_hint, stage: 2 };
+		access.newtype_variant_seed(inner)
 	}
 }
 
@@ -424,6 +498,10 @@ impl<'de, 'a, 'c, 'g> Visitor<'de> for ScalarV<'a, 'c, 'g> {
 			}
 			"dec" => parse_decimal_text(v),
 			"dec_int" => Ok(dshown("str", 0, v)),
+			"bytes" | "fix" if self.cap.ctx.hints == "alt2" => {
+				self.cap.ctx.note_copied();
+				Ok(json!({"t": self.want, "v": bytes_json(v.as_bytes())}))
+			}
 			w => Err(de_err(format!("got str, wanted {w}"))),
 		}
 	}
